@@ -199,10 +199,37 @@ class UDescr(Exception):
     self.limit, self.tenant = limit, tenant
 
 
+class UFinal(Exception):
+  """A class that refuses to be subclassed."""
+  def __init_subclass__(cls, **kw):
+    raise TypeError('UFinal cannot be subclassed')
+
+
+class UReadOnlyArgs(Exception):
+  args = property(lambda self: ('fixed', 1))
+
+
+class UValidatingNew(Exception):
+  def __new__(cls, code, detail=None):
+    if not isinstance(code, int):
+      raise ValueError('code must be int')
+    return super().__new__(cls, code, detail)
+
+  def __init__(self, code, detail=None):
+    super().__init__('%d: %s' % (code, detail))
+    self.code = code
+
+
 class UKwOnly(Exception):
   def __init__(self, *, code):
     super().__init__('code=%s' % code)
     self.code = code
+
+
+def _regroup():
+  eg = ExceptionGroup('m', [ValueError(1)])
+  eg.args = ('m',)
+  return eg
 
 
 USER = {
@@ -212,6 +239,8 @@ USER = {
     'UMulti': lambda: UMulti('key'), 'UOs': lambda: UOs(errno.EACCES, 'denied', '/x'), 'UKwOnly': lambda: UKwOnly(code=5),
     'UClassDefault': lambda: UClassDefault('cd', 5), 'UNewMismatch': lambda: UNewMismatch(3, 'd'),
     'UDescr': lambda: UDescr('quota', 100, 'acme'),
+    'UFinal': lambda: UFinal('x'), 'UReadOnlyArgs': lambda: UReadOnlyArgs('y'), 'UValidatingNew': lambda: UValidatingNew(404, 'nf'),
+    'GroupArgsReassigned': lambda: _regroup(),
 }
 
 
@@ -395,7 +424,8 @@ def check_one(cname, site, depth, res, desc):
     return
   res.w('traceback_kept')
   # ---- message
-  s, so = str(got), str(orig)
+  # (the extension may be carried as exception notes, which tracebacks display after the message)
+  s, so = str(got) + ''.join('\n  ' + n for n in getattr(got, '__notes__', []) or [] if isinstance(n, str) and 'configurable' in n), str(orig)
   if not s.startswith(so) or not all(("configurable '%s'" % n) in s for n in names) or (scope and scope not in s):
     res.violation('message', '%r: str() is %r; expected %r extended by a note naming %r and scope %r' %
                   (desc, s, so, names, scope), desc)
